@@ -94,6 +94,14 @@ THEOREMS_C14_LE = [
      'under the one-sided witness the concatenated interval solutions (np.hstack), transported, satisfy every restriction and bound of the unsplit problem on the original grid, '
      'are worth the sum of the interval values there, and that sum is below every upper bound of the unsplit value (LP)'),
     ('EAO.Properties.C14', 'EAO.C14.split_solution_le_unsplit_bool', 'the same with boolean variables'),
+    ('EAO.Properties.C14', 'EAO.C14.split_le_witnessC_feasible',
+     'one-sided witness with a CERTIFIED instead of an equal objective ((c_split - c_unsplit).x >= 0 is an exactly checked combination of interval rows; storages with cost_store): '
+     'every split-feasible point, transported, is unsplit-feasible and worth at least as much in the unsplit problem'),
+    ('EAO.Properties.C14', 'EAO.C14.split_le_unsplitC', 'under that witness every upper bound of the unsplit values bounds the split values: split never exceeds unsplit'),
+    ('EAO.Properties.C14', 'EAO.C14.split_le_unsplitC_relaxed', 'the same for the relaxations (LP case)'),
+    ('EAO.Properties.C14', 'EAO.C14.split_solution_le_unsplitC',
+     'under that witness the concatenated interval solutions, transported, are an unsplit-feasible dispatch worth at least the sum of the interval values, and that sum is below every upper bound of the unsplit value (LP)'),
+    ('EAO.Properties.C14', 'EAO.C14.split_solution_le_unsplitC_bool', 'the same with boolean variables'),
 ]
 
 
@@ -126,19 +134,82 @@ def _le_search(a, b, cand, B):
     beq = np.array([float(a.get(j, 0)) for j in cols])
     obj = np.array([float(B[k][1]) for k in cand])
     bounds = [(0, None) if B[k][2] == 'U' else ((None, 0) if B[k][2] == 'L' else (None, None)) for k in cand]
+    # identical equations are dropped and presolve is switched off: HiGHS (scipy 1.14) aborts the process on some
+    # tiny problems with duplicated rows
+    M = np.unique(np.hstack([Aeq, beq[:, None]]), axis=0)
+    Aeq, beq = M[:, :-1], M[:, -1]
+    tol = 1e-7 * max(1.0, abs(float(b)))
     try:
-        res = linprog(obj, A_eq=Aeq, b_eq=beq, bounds=bounds, method='highs')
+        res = linprog(obj, A_eq=Aeq, b_eq=beq, bounds=bounds, method='highs', options={'presolve': False})
+        if res.status == 3:
+            # the right-hand side can be made arbitrarily small: any combination with a right-hand side <= b will do
+            res = linprog(np.zeros(len(cand)), A_eq=Aeq, b_eq=beq, A_ub=obj[None, :], b_ub=np.array([float(b)]),
+                          bounds=bounds, method='highs', options={'presolve': False})
+            if res.status == 0:
+                res.fun = float(obj @ res.x)
     except Exception:
         return None
     if res.status != 0:
         return None
-    if res.fun > float(b) + 1e-7 * max(1.0, abs(float(b))):
+    if res.fun > float(b) + tol:
         return None
-    out = {}
-    for q, k in enumerate(cand):
-        if abs(res.x[q]) > 1e-9:
-            out[k] = Fraction(float(res.x[q])).limit_denominator(10 ** 6)
-    return out
+    supp = [k for q, k in enumerate(cand) if abs(res.x[q]) > 1e-9]
+    rounded = {k: Fraction(float(res.x[q])).limit_denominator(10 ** 6) for q, k in enumerate(cand) if abs(res.x[q]) > 1e-9}
+    if _check_le(a, b, rounded, B):
+        return rounded
+    exact = _solve_exact(a, supp, B)
+    if exact is not None:
+        exact = {k: v for k, v in exact.items() if v != 0}
+        if _check_le(a, b, exact, B):
+            return exact
+    return rounded            # the exact check of the model will reject it and say why
+
+
+def _check_le(a, b, lam, B):
+    """the test the model makes (`EAO.leCert`), in exact arithmetic"""
+    comb, rhs = {}, Fraction(0)
+    for k, v in lam.items():
+        if (B[k][2] == 'U' and v < 0) or (B[k][2] == 'L' and v > 0):
+            return False
+        for j, c in B[k][0].items():
+            comb[j] = comb.get(j, Fraction(0)) + v * c
+        rhs += v * B[k][1]
+    return {j: c for j, c in comb.items() if c != 0} == {j: c for j, c in a.items() if c != 0} and rhs <= b
+
+
+def _solve_exact(a, supp, B):
+    """exact rational solution of  sum_{k in supp} lam_k row_k = a  (Gaussian elimination over Fraction; free unknowns
+    are set to 0); None when the system has no exact solution or is too large"""
+    if not supp or len(supp) > 60:
+        return None
+    cols = sorted(set(a) | set(j for k in supp for j in B[k][0]))
+    if len(cols) > 400:
+        return None
+    M = [[B[k][0].get(j, Fraction(0)) for k in supp] + [Fraction(a.get(j, 0))] for j in cols]
+    nu = len(supp)
+    piv = []
+    r = 0
+    for c in range(nu):
+        p = next((i for i in range(r, len(M)) if M[i][c] != 0), None)
+        if p is None:
+            continue
+        M[r], M[p] = M[p], M[r]
+        pv = M[r][c]
+        M[r] = [v / pv for v in M[r]]
+        for i in range(len(M)):
+            if i != r and M[i][c] != 0:
+                f = M[i][c]
+                M[i] = [vi - f * vr for vi, vr in zip(M[i], M[r])]
+        piv.append(c)
+        r += 1
+        if r == len(M):
+            break
+    if any(all(v == 0 for v in row[:nu]) and row[nu] != 0 for row in M):
+        return None
+    lam = {k: Fraction(0) for k in supp}
+    for i, c in enumerate(piv):
+        lam[supp[c]] = M[i][nu]
+    return lam
 
 
 def _le_multipliers(a, b, B, by_coeffs, by_col):
@@ -167,10 +238,12 @@ def _le_multipliers(a, b, B, by_coeffs, by_col):
     return lam
 
 
-def le_multipliers(U, Ps, perm):
+def le_multipliers(U, Ps, perm, with_cost=False):
     """for every row of the unsplit problem `U` (problem_json) the sparse multipliers [[position, 'p/q'], …] over the
     rows of the block sum of `Ps` that combine to it (positions >= number of block rows: the second list of an equality
-    row); rows for which the search finds nothing get an empty list.  Returns (lams_sparse, number of rows not found)"""
+    row); rows for which the search finds nothing get an empty list.  Returns (lams_sparse, number of rows not found);
+    with_cost: additionally the sparse multipliers certifying (c_split - c_unsplit).x >= 0 — None when the cost vectors
+    are equal, [] when they differ and the search finds nothing"""
     n = len(U['c'])
     inv = [None] * n
     for j, i in enumerate(perm):
@@ -214,7 +287,16 @@ def le_multipliers(U, Ps, perm):
             missing += 1
             ent = {}
         out.append([[int(k), fs(v)] for k, v in sorted(ent.items())])
-    return out, missing
+    if not with_cost:
+        return out, missing
+    cB = [Fraction(v) for P in Ps for v in P['c']]
+    cA = [Fraction(U['c'][perm[j]]) for j in range(n)] if len(cB) == n else None
+    lam_cost = None
+    if cA is not None and cA != cB:
+        d = {j: cA[j] - cB[j] for j in range(n) if cA[j] != cB[j]}       # (c_B - c_A).x >= 0  <=>  (c_A - c_B).x <= 0
+        le = _le_multipliers(d, Fraction(0), B, by_coeffs, by_col)
+        lam_cost = [] if le is None else [[int(k), fs(-v)] for k, v in sorted(le.items())]
+    return out, missing, lam_cost
 
 
 def le_witness_check(rec, rs, drv):
@@ -227,12 +309,16 @@ def le_witness_check(rec, rs, drv):
         return {'witness': None, 'reason': 'no matching of the variables: the first mapping rows of the split and the unsplit problem differ'}
     U = problem_json(rec['op'])
     Ps = [problem_json(o) for o in rs['op'].ops]
-    lams, missing = le_multipliers(U, Ps, perm)
-    ans = drv.ok({'op': 'split_le_witness', 'problem': U, 'intervals': Ps, 'perm': [int(i) for i in perm], 'lams_sparse': lams})
+    lams, missing, lam_cost = le_multipliers(U, Ps, perm, with_cost=True)
+    req = {'op': 'split_le_witness', 'problem': U, 'intervals': Ps, 'perm': [int(i) for i in perm], 'lams_sparse': lams}
+    if lam_cost is not None:
+        req['lam_cost_sparse'] = lam_cost          # the cost vectors differ: EAO.splitLeWitnessC with a certificate for the objective
+    ans = drv.ok(req)
     reason = str(ans['reason'])
     if not ans['witness'] and missing:
         reason += ' [the multiplier search found nothing for %d row(s)]' % missing
-    return {'witness': bool(ans['witness']), 'reason': reason, 'rows_without_multipliers': missing}
+    return {'witness': bool(ans['witness']), 'reason': reason, 'rows_without_multipliers': missing,
+            'objective': ans.get('objective', '-')}
 
 
 # ------------------------------------------------------------------ development driver / self-test
@@ -302,6 +388,8 @@ def selftest(stream, n, drv, seed0=1, verbose=True, le=False):
                     'intervals': len(rs['op'].ops), 'n': len(rec['op'].c), 'reason': w['reason']}
             if w['witness'] is True:
                 st['true'] += 1
+                if w.get('objective') == 'certified':
+                    st['true_certified_objective'] = st.get('true_certified_objective', 0) + 1
             elif w['witness'] is False:
                 st['false'] += 1
                 st['false_cases'].append(info)
